@@ -3,7 +3,8 @@
    ET.parse (minidom.toprettyxml (ET.tostring x)) = x (tags, attributes, child order, text of text-only
    elements) is the external-library hypothesis validated by suites W-fide / R-fide. *)
 From Coq Require Import List Bool String ZArith.
-From FM Require Import Base.Result Base.AstOp Model.Ast Model.FM Model.PFM Model.Sem Format.Xml Proofs.FideFacts.
+From FM Require Import Base.Result Base.AstOp Model.Ast Model.FM Model.PFM Model.Sem Format.Xml Model.PyRt Model.Loc
+     Gen.Tables_fide Gen.Src_fide Proofs.FideFacts Proofs.SrcFideFacts.
 Import ListNotations.
 Local Open Scope list_scope.
 
@@ -62,3 +63,22 @@ Example C07_nonvacuous :
   end = Some (fide_norm ex07).
 Proof. vm_compute. split; reflexivity. Qed.
 Print Assumptions C07_nonvacuous.
+
+(* ---- the pure helper functions of featureide_writer.py about the TRANSLATED SOURCE (Gen/Src_fide.v, regenerated on every
+   run; DESIGN §10): the element tag, the attribute dict and the intermediate constraint dicts are the model's.  (The functions
+   that assemble ElementTree elements mutate shared XML objects; they are tied by suite W-fide only.) ---- *)
+Theorem C07_source_tag_and_attributes : forall f anc,
+  py__tag_element (f, anc) = fide_tag f /\ py__get_attributes (f, anc) = fide_attributes (hd_error anc) f.
+Proof. intros f anc. exact (conj (src_fide_tag (f, anc)) (src_fide_attributes f anc)). Qed.
+Print Assumptions C07_source_tag_and_attributes.
+
+Theorem C07_source_constraint_info : forall n fuel, (fuel_node n <= fuel)%nat ->
+  py__get_ctc_info fuel n = rmap cinfo_aval (fide_ctc_info n).
+Proof. exact src_fide_ctc_info. Qed.
+Print Assumptions C07_source_constraint_info.
+
+Theorem C07_source_constraints_listing : forall cs fuel, (fuel_ctcs cs <= fuel)%nat ->
+  rmap (fun _ => tt) (py__get_constraints_info fuel cs)
+  = rmap (fun _ => tt) (mapM (fun c => match pretty_str (c_ast c) with Err e => Err e | Ok _ => fide_ctc_info (c_ast c) end) cs).
+Proof. exact src_fide_constraints_info_write. Qed.
+Print Assumptions C07_source_constraints_listing.
